@@ -143,6 +143,7 @@ func init() {
 				r.Fail(f.Name()+":no-save", f.Decl.Pos(), nil, "Checkpoint no longer saves the checkpoints file in its asynchronous part")
 				return
 			}
+			lit = unwrapLit(r.P, info, lit)
 			name := f.Name() + "$async"
 			isOKReturn := func(c *pathsim.Ctx, ev *pathsim.Event) bool {
 				if ev.Kind != pathsim.EvReturn || len(ev.Results) != 2 {
@@ -178,7 +179,7 @@ func init() {
 						got[kv.Key.(*ast.Ident).Name] = kv.Value
 					}
 				}
-				if e, ok := got["CheckpointID"]; !ok || !r.isParam(f, e, 0) {
+				if e, ok := got["CheckpointID"]; !ok || !r.isParam(f, deref(info, e), 0) {
 					r.Fail(name+":handle-id", ret.Pos(), nil, "the handle's CheckpointID is not the id Checkpoint was called with")
 				}
 				uriOK := false
